@@ -5,6 +5,7 @@ cd /verif
 names="$@"; [ -z "$names" ] && names=$(ls seeded)
 for n in $names; do
   id=${n%%-*}
+  find replays/found -type f -delete 2>/dev/null   # a seed must be found afresh, not by an input saved for another one
   out=$(tools/with_mutant.sh seeded/$n/patch.diff $id 2>&1)
   v=$(echo "$out" | grep -c '^VIOLATION')
   ex=$(echo "$out" | grep -oE "exit=[0-9]+" | tail -1)
